@@ -67,7 +67,17 @@ pub fn run<C: Ciphersuite, L: Lab<C>>(lab: &mut L, p: &Params) {
     let mut submitted = BTreeMap::new();
     let mut zs: BTreeMap<Identifier<C>, (frost_core::Scalar<C>, frost_core::Scalar<C>)> = BTreeMap::new();
     for (j, id) in sess.signers.iter().enumerate() {
-        let z = lab.adv_scalar_among(&format!("z'{}", j + 1), &[honest[id].share().0]);
+        // replay candidates: the honest value first, then every honest share and every earlier
+        // submitted share (a counter-model of the form "honest value plus the error another
+        // signer introduced" is replayed as that combination of concrete values)
+        let mut cands = vec![honest[id].share().0];
+        for other in sess.signers.iter().filter(|o| *o != id) {
+            cands.push(honest[other].share().0);
+        }
+        for earlier in sess.signers.iter().take(j) {
+            cands.push(zs[earlier].0);
+        }
+        let z = lab.adv_scalar_among(&format!("z'{}", j + 1), &cands);
         submitted.insert(*id, sig_share_from_scalar::<C>(z));
         zs.insert(*id, (z, honest[id].share().0));
     }
